@@ -208,6 +208,33 @@ def dir_cases(draw):
     return c
 
 
+def _pair(x, dmax):
+    """[decimal degrees, HP fields of (nearly) the same angle] as the generated cases carry them."""
+    a = abs(x)
+    d = min(int(a), dmax)
+    m = min(int((a - d) * 60.0), 59)
+    sn = min(max(int(round(((a - d) * 60.0 - m) * 60.0 * 1e9)), 0), 60 * 10 ** 9 - 1)
+    return [x, [x < 0, d, m, sn]]
+
+
+_TYPES = ["dd", "dms", None]
+
+
+def _inv_fill(u):
+    f, r = S.u_pick(u[4], _TYPES)
+    t, r = S.u_pick(r, _TYPES)
+    return {"from": f, "to": t, "lit": "repr", "lat1": _pair(-90.0 + 180.0 * u[0], 89), "lon1": _pair(-180.0 + 360.0 * u[1], 179),
+            "lat2": _pair(-90.0 + 180.0 * u[2], 89), "lon2": _pair(-180.0 + 360.0 * u[3], 179)}
+
+
+def _dir_fill(u):
+    f, r = S.u_pick(u[4], _TYPES)
+    t, r = S.u_pick(r, _TYPES)
+    dist = 2e7 * u[3] if r < 0.5 else 10.0 ** (-3.0 + 10.301 * u[3])
+    return {"from": f, "to": t, "lit": "repr", "ell_dist": dist, "lat1": _pair(-90.0 + 180.0 * u[0], 89),
+            "lon1": _pair(-180.0 + 360.0 * u[1], 179), "azimuth1to2": _pair(360.0 * u[2], 359)}
+
+
 def _nt(case):
     return (case["from"] not in (None, "dd")) or (case["to"] not in (None, "dd"))
 
@@ -228,6 +255,12 @@ SUBCHECKS = [
     SubCheck("vincdir_endpoint", check_vincdir, strategy=dir_cases(), nontrivial=_nt, classes=_classes, quick=1500, thorough=60000,
              shards_quick=3, shards_thorough=12, seq_groups=[["from"], ["to"], ["ell_dist"], ["lit"]],
              fresh=(8, 64, 3), rule="GET /vincdir == vincdir on the same arguments, HP conversion iff dms, all 9 type combinations"),
+    SubCheck("vincinv_fill", check_vincinv, enumerate=S.fill(2020, 5, _inv_fill, 12000, 240000), nontrivial=_nt, classes=_classes,
+             shards_quick=12, shards_thorough=16,
+             rule="low-discrepancy fill of both points x the nine angle-type combinations: 12 000 / 240 000 requests (pairs beyond 178 deg discarded)"),
+    SubCheck("vincdir_fill", check_vincdir, enumerate=S.fill(2021, 5, _dir_fill, 12000, 240000), nontrivial=_nt, classes=_classes,
+             shards_quick=12, shards_thorough=16,
+             rule="low-discrepancy fill of start point x azimuth x distance (uniform / log-uniform) x the nine angle-type combinations: 12 000 / 240 000 requests"),
     SubCheck("index_route", check_index, enumerate=enumerate_index, shards_quick=1, shards_thorough=1, exhaustive="both",
              rule="GET / lists every routed endpoint (complete: the URL map is enumerated)"),
 ]
